@@ -307,5 +307,44 @@ Definition chk_reference (table : list dsm) (ixs proj : list nat) (ki : nat) (ex
   | _, _ => false
   end.
 (* many histories over one table of pairwise different segment classes *)
-Definition chk_combine_all (table : list dsm) (cases : list (list nat * list (list (list N)))) : bool :=
-  forallb (fun c => chk_combine table (fst c) (Ok (snd c))) cases.
+Definition chk_combine_all (table : list dsm) (cases : list (list N * list (list (list N)))) : bool :=
+  forallb (fun c => chk_combine table (map N.to_nat (fst c)) (Ok (snd c))) cases.
+
+(* Compact text form of a batch of exhaustive-ordering cases (list notations
+   of numerals are slow to parse; a string literal is not):
+     case  ::= <ixs> "|" <step> { ";" <step> }        cases separated by "/"
+     ixs   ::= one letter per arrival, 'A' + table index
+     step  ::= callbacks separated by ","; a callback is one letter per entry,
+               'A' + projected identity (0 = nil slot, i+1 = table entry i) *)
+Fixpoint split_slash (s : string) : list string :=
+  match s with
+  | EmptyString => [EmptyString]
+  | String c r =>
+    if N_of_ascii c =? 47 then EmptyString :: split_slash r
+    else match split_slash r with
+         | [] => [String c EmptyString]
+         | h :: t => String c h :: t
+         end
+  end.
+Fixpoint dec_ixs (s : string) : list nat * string :=
+  match s with
+  | EmptyString => ([], EmptyString)
+  | String c r =>
+    if N_of_ascii c =? 124 then ([], r)
+    else let '(l, rest) := dec_ixs r in (N.to_nat (N_of_ascii c - 65) :: l, rest)
+  end.
+Definition flush_cb (cb : list N) (cbs : list (list N)) : list (list N) :=
+  match cb with [] => cbs | _ => rev cb :: cbs end.
+Fixpoint dec_steps (s : string) (cb : list N) (cbs : list (list N)) : list (list (list N)) :=
+  match s with
+  | EmptyString => [rev (flush_cb cb cbs)]
+  | String c r =>
+    let n := N_of_ascii c in
+    if n =? 59 then rev (flush_cb cb cbs) :: dec_steps r [] []
+    else if n =? 44 then dec_steps r [] (flush_cb cb cbs)
+    else dec_steps r ((n - 65) :: cb) cbs
+  end.
+Definition chk_combine_str (table : list dsm) (s : string) : bool :=
+  let '(ixs, rest) := dec_ixs s in chk_combine table ixs (Ok (dec_steps rest [] [])).
+Definition chk_combine_text (table : list dsm) (s : string) : bool :=
+  forallb (chk_combine_str table) (split_slash s).
